@@ -28,39 +28,43 @@ EXTENDS Integers, Sequences, TLC, Json
 CONSTANT TraceFile
 Tr == ndJsonDeserialize(TraceFile)
 
-VARIABLES l, st, sent, resp, inw, closing
+VARIABLES l, st, sent, resp, inw, closing, early
 \* inw: the transaction whose retransmission is inside the socket write ("" = none); closing: Close has been called
-tvars == <<l, st, sent, resp, inw, closing>>
+\* early: transactions whose response was injected before their third transmission (more than half a second of real time
+\* before they can give up): they complete with that response
+tvars == <<l, st, sent, resp, inw, closing, early>>
 Line == Tr[l]
 IsEvent(e) == l <= Len(Tr) /\ Line.e = e /\ l' = l + 1
 Put(f, k, v) == [x \in DOMAIN f \cup {k} |-> IF x = k THEN v ELSE f[x]]
 
-TInit == l = 1 /\ st = <<>> /\ sent = <<>> /\ resp = {} /\ inw = "" /\ closing = FALSE
-TReset == IsEvent("Reset") /\ st' = <<>> /\ sent' = <<>> /\ resp' = {} /\ inw' = "" /\ closing' = FALSE
+TInit == l = 1 /\ st = <<>> /\ sent = <<>> /\ resp = {} /\ inw = "" /\ closing = FALSE /\ early = {}
+TReset == IsEvent("Reset") /\ st' = <<>> /\ sent' = <<>> /\ resp' = {} /\ inw' = "" /\ closing' = FALSE /\ early' = {}
 TStart == IsEvent("Start") /\ Line.t \notin DOMAIN st
-          /\ st' = Put(st, Line.t, "pending") /\ sent' = Put(sent, Line.t, 0) /\ UNCHANGED <<resp, inw, closing>>
+          /\ st' = Put(st, Line.t, "pending") /\ sent' = Put(sent, Line.t, 0) /\ UNCHANGED <<resp, inw, closing, early>>
 \* a transmission: only of a pending transaction, the n-th after the (n-1)-th, at most 7
 TSent  == IsEvent("Sent") /\ Line.t \in DOMAIN st /\ st[Line.t] = "pending"
           /\ Line.n = sent[Line.t] + 1 /\ Line.n <= 7
-          /\ sent' = Put(sent, Line.t, Line.n) /\ UNCHANGED <<st, resp, inw, closing>>
-TResp  == IsEvent("Resp") /\ resp' = resp \cup {Line.t} /\ UNCHANGED <<st, sent, inw, closing>>
+          /\ sent' = Put(sent, Line.t, Line.n) /\ UNCHANGED <<st, resp, inw, closing, early>>
+TResp  == IsEvent("Resp") /\ resp' = resp \cup {Line.t}
+          /\ early' = (IF Line.t \in DOMAIN sent /\ sent[Line.t] <= 2 /\ st[Line.t] = "pending" THEN early \cup {Line.t} ELSE early)
+          /\ UNCHANGED <<st, sent, inw, closing>>
 \* completion: once; a response only if one was injected, a timeout only after the 7th transmission
 TRet   == IsEvent("Ret") /\ Line.t \in DOMAIN st /\ st[Line.t] = "pending"
           /\ \/ Line.res = "resp" /\ Line.t \in resp
-             \/ Line.res = "timeout" /\ sent[Line.t] = 7
+             \/ Line.res = "timeout" /\ sent[Line.t] = 7 /\ Line.t \notin early
              \/ Line.res = "closed" /\ closing /\ inw = ""           \* Close waits for the callback that is inside the write
              \/ Line.res = "writeerr" /\ inw = "" /\ sent[Line.t] >= 2  \* (this driver fails retransmissions only)
-          /\ st' = Put(st, Line.t, "done") /\ UNCHANGED <<sent, resp, inw, closing>>
+          /\ st' = Put(st, Line.t, "done") /\ UNCHANGED <<sent, resp, inw, closing, early>>
 TEnd   == IsEvent("End")
           /\ \A t \in DOMAIN st : st[t] = "done"
           /\ Line.outstanding = 0 /\ Line.table = 0
-          /\ UNCHANGED <<st, sent, resp, inw, closing>>
-TWEnter == IsEvent("WriteEnter") /\ inw = "" /\ st[Line.t] = "pending" /\ inw' = Line.t /\ UNCHANGED <<st, sent, resp, closing>>
-TWExit  == IsEvent("WriteExit") /\ inw = Line.t /\ inw' = "" /\ UNCHANGED <<st, sent, resp, closing>>
-TCloseCall == IsEvent("CloseCall") /\ closing' = TRUE /\ UNCHANGED <<st, sent, resp, inw>>
-TCloseRet  == IsEvent("CloseRet") /\ closing /\ inw = "" /\ UNCHANGED <<st, sent, resp, inw, closing>>
-TEnd2  == IsEvent("End2") /\ Line.outstanding = 0 /\ (\A t \in DOMAIN st : st[t] = "done") /\ UNCHANGED <<st, sent, resp, inw, closing>>
-TNote  == IsEvent("Note") /\ UNCHANGED <<st, sent, resp, inw, closing>>
+          /\ UNCHANGED <<st, sent, resp, inw, closing, early>>
+TWEnter == IsEvent("WriteEnter") /\ inw = "" /\ st[Line.t] = "pending" /\ inw' = Line.t /\ UNCHANGED <<st, sent, resp, closing, early>>
+TWExit  == IsEvent("WriteExit") /\ inw = Line.t /\ inw' = "" /\ UNCHANGED <<st, sent, resp, closing, early>>
+TCloseCall == IsEvent("CloseCall") /\ closing' = TRUE /\ UNCHANGED <<st, sent, resp, inw, early>>
+TCloseRet  == IsEvent("CloseRet") /\ closing /\ inw = "" /\ UNCHANGED <<st, sent, resp, inw, closing, early>>
+TEnd2  == IsEvent("End2") /\ Line.outstanding = 0 /\ (\A t \in DOMAIN st : st[t] = "done") /\ UNCHANGED <<st, sent, resp, inw, closing, early>>
+TNote  == IsEvent("Note") /\ UNCHANGED <<st, sent, resp, inw, closing, early>>
 TNext == TReset \/ TStart \/ TSent \/ TResp \/ TRet \/ TEnd \/ TWEnter \/ TWExit \/ TCloseCall \/ TCloseRet \/ TEnd2 \/ TNote
 TSpec == TInit /\ [][TNext]_tvars
 
